@@ -23,6 +23,13 @@ ORACLES = {
         "docutils fully_normalize_name and make_id, str.isdigit, markdown-it normalizeLinkText, html_to_nodes.RE_FLOW, sphinx "
         "relfn2path/path2doc: answered by the real functions for exactly the arguments the model asks for",
     "O_canon": "the link-destination canonicaliser of the search oracle is invariant under normalizeLinkText (checked per href)",
+    "O_dyn": "the nodes (canonical tree, identity ignored) and MyST warnings a directive / role / substitution / front-matter run "
+             "produces: recorded from the real run of the same parse (gen.c02_lib.record_dynamic); a run that changes a document "
+             "registry the model tracks is answered 'outside the model'; for directives and roles the harness also checks that the "
+             "current node received exactly the list run_directive / the role function returned, once, at its end",
+    "O_registry": "the operations of docutils' registry interface (Total.reg_api) do not fail on the states the renderer produces: "
+                  "not proved (C02_total is stated up to it); exercised by every correspondence case (a failing operation would "
+                  "be a model error) and by the extracted totality premise (measured:totality)",
 }
 ASSUMPTIONS = ["linkify-it-py is not installed: gfm mode / the linkify extension run with the linkify rule disabled (the parser is "
                "otherwise the one built by create_md_parser)",
@@ -58,6 +65,10 @@ def corr_cases(ctx):
     # dynamic syntax (directives, roles, substitutions, front matter): the O_dyn oracle is answered with what the real
     # run_directive / role / substitution / front-matter run returned (gen.c02_lib.record_dynamic)
     dyn_exts = list(L.STATIC_EXTS) + list(G.DYN_EXTS)
+    for text in ("[a](index#x) <path:nofile.txt> <path:index.md> [b](index.md#q) [c](index)\n",
+                 "<project:index.md#t> <project:nofile.md> [](index#x) [d](./index#y){#k}\n"):
+        for backend in ("docutils", "sphinx"):
+            yield "seed", {"text": text, "mode": "myst", "exts": list(L.STATIC_EXTS), "backend": backend}
     for text in G.SEED_DYNAMIC:
         for backend in ("docutils", "sphinx"):
             yield "dyn-seed", {"text": text, "mode": "myst", "exts": dyn_exts, "backend": backend}
@@ -182,15 +193,23 @@ LEVEL_TEXT = ("Proof (Coq, all theorems closed under the global context): the re
               "set with two semantics (the Python one: tree + current-node path + section level map; a functional one: nodes appended to "
               "the current node); their refinement is proved for every program (C02_refinement); every token that cannot open a section "
               "restores current node and level map (C02_render_restores_cur); for both back ends, every configuration and every token "
-              "forest of the static grammar (any depth) the skeleton of the doctree equals the skeleton of the token tree unless content "
-              "was dropped with a warning (C02_faithful, under O_lexer_concat, O_canon, O_no_files); back ends agree on the skeleton "
-              "(C02_backends_agree_partial); code verbatim under O_lexer_concat and refuted for a newline-stripping lexer. The model is "
-              "tied to base.py/sphinx_.py by Gen/Render.v (dispatch table, list style map, alignment classes, link dispatch order, raw "
-              "literals - proved equal to the specification's fixed tables) and by differential correspondence on real token trees in "
-              "all modes and both renderers; the statement of C02_faithful is itself evaluated (extracted) on every correspondence case.")
+              "forest of the static grammar (any depth; round 2: directive fences, colon-fence directives, roles, substitutions and front "
+              "matter included as an oracle O_dyn answered with the nodes of the real run) the skeleton of the doctree equals the "
+              "skeleton of the token tree unless content was dropped with a warning (C02_faithful, under O_lexer_concat, O_canon, "
+              "O_no_files); a dynamic token is spliced exactly once at its position (C02_dynamic_spliced_once); on the narrowed static "
+              "grammar total_forest the forest IS rendered unless an operation of docutils' registry interface returns an error "
+              "(C02_total, C02_faithful_total); back ends agree on the skeleton (C02_backends_agree_partial) and are the same program, "
+              "hence produce the same document without any erasure, on the back-end independent fragment (C02_backends_same_fragment); "
+              "code verbatim under O_lexer_concat and refuted for a newline-stripping lexer. The model is tied to base.py/sphinx_.py by "
+              "Gen/Render.v (dispatch table, list style map, alignment classes, link dispatch order, raw literals - proved equal to the "
+              "specification's fixed tables) and by differential correspondence on real token trees in all modes and both renderers; the "
+              "statements of C02_faithful, of the totality premise and of tree-level back-end agreement after the documented erasure "
+              "(Backends.erase_be) are themselves evaluated (extracted) on every correspondence case.")
 LEVEL_NOTE = ("Trusted: Coq kernel; the transcription in Doc/Render.v (correspondence-checked, not proved); markdown-it/docutils/Sphinx "
-              "library functions enter as oracles answered by the real functions; the theorems are conditional on the model rendering "
-              "the forest (totality on the static grammar is measured, not proved); directives, roles, substitutions, front matter, inv: "
-              "links are outside the static grammar; gfm/linkify run without the linkify rule (linkify-it-py not installed). Partial: "
-              "C02_backends_agree (skeleton level only). Open findings: code-verbatim:pygments-stripnl, "
-              "backends:literal_block:pygments-stripnl, missing:footnote:label-clashes-with-name.")
+              "library functions enter as oracles answered by the real functions; the result of a directive / role / substitution / "
+              "front-matter run is an oracle (recorded from the real run; runs that touch the document registries or return sections, "
+              "transitions or tables are outside the model). Not proved: that docutils' registry operations never fail on reachable "
+              "states (C02_total is 'up to the registry'); full-tree back-end agreement outside the back-end independent fragment "
+              "(measured on every case after Backends.erase_be). Outside the model: {eval-rst}, inv: links, html_image/html_admonition, "
+              "colon-fence divs; gfm/linkify run without the linkify rule (linkify-it-py not installed). Open findings: "
+              "code-verbatim:pygments-stripnl, backends:literal_block:pygments-stripnl.")
